@@ -236,6 +236,16 @@ pub fn parse_file_internal(context: &ParseContext) -> Result<(), Error> {
         );
     }
 
+    let included_files = &context.common_context.included_files;
+    included_files.set(included_files.get() + 1);
+    if included_files.get() > MAX_INCLUDED_FILES {
+        bail!(
+            "Cannot read file {} because more than {} files are included",
+            context.current_path.to_string_lossy(),
+            MAX_INCLUDED_FILES
+        );
+    }
+
     let ParseContext {
         include_depth,
         current_path,
@@ -311,6 +321,10 @@ pub fn parse_file_internal(context: &ParseContext) -> Result<(), Error> {
 
 /// How deep files may include other files
 const MAX_INCLUDE_DEPTH: usize = 64;
+
+/// How many files may be read for one build: files which include other files
+/// several times multiply, a few small files give millions of includes
+const MAX_INCLUDED_FILES: usize = 1 << 16;
 
 /// Grammar parser is recursive: every opened parenthesis and every unary
 /// operator costs a piece of the stack, so limit how deep a line may nest.
